@@ -276,6 +276,25 @@ def write_checks(ctx, model, tmp):
     for (text, desc), ans in zip(wmetas, model.ask(wlines)):
         if common.dec_str(ans) != text:
             ctx.disagree("csvwrite", desc, text[:300], common.dec_str(ans)[:300])
+    # a long table (twenty thousand rows, three columns): written and read back bit for bit, rows in order
+    n = 20000
+    big = [numpy.ma.array(numpy.arange(n, dtype=float) * 0.1 - 777.7), numpy.ma.array(numpy.arange(n, dtype=int) * 7 - 50000, dtype=int),
+           numpy.ma.array(numpy.array([DOUBLES[j % len(DOUBLES)] for j in range(n)], dtype=float))]
+    path = os.path.join(tmp, "long.csv")
+    ctx.case("write-long %d" % n, sample=None)
+    ctx.count("long_table_cases")
+    try:
+        EEMSWrite("W", []).execute(OutFileName=path, OutFieldNames=[eems.Producer(a, nm, False) for a, nm in zip(big, ["x", "k", "d"])])
+        for nm, col in zip(["x", "k", "d"], big):
+            out = read_impl(path, nm, None, None)
+            back = numpy.ma.getdata(out[1]) if out[0] == "ok" else None
+            if back is None or back.shape != (n,) or not numpy.array_equal(back.astype(float).view(numpy.int64), numpy.ma.getdata(col).astype(float).view(numpy.int64)):
+                j = None if back is None or back.shape != (n,) else int(numpy.nonzero(back.astype(float).view(numpy.int64) != numpy.ma.getdata(col).astype(float).view(numpy.int64))[0][0])
+                ctx.fail("a table of %d rows written and read back: column %s %s" % (n, nm, "cannot be read: %s" % (out[1],) if back is None else
+                         "has %r rows" % (back.shape,) if j is None else "differs first in row %d: %r written, %r read" % (j, col[j], back[j])), {"rows": n, "column": nm})
+                break
+    except Exception as e:
+        ctx.fail("a table of %d rows cannot be written: %s" % (n, type(e).__name__), {"rows": n})
     # known finding: a missing cell is written as "--"
     path = os.path.join(tmp, "masked.csv")
     col = numpy.ma.array([1.0, -9999.0, 3.0], mask=[False, True, False])
